@@ -25,3 +25,29 @@ Definition ok_prune (c : doc * list string) : bool :=
   end.
 
 Definition mismatches_prune := mismatches ok_prune.
+
+Definition pair_eqb (a b : string * string) : bool :=
+  String.eqb (fst a) (fst b) && String.eqb (snd a) (snd b).
+
+(** C16 / C19: observed = (path items, (path, method) of surviving operations, component keys). *)
+Definition ok_prepare (c : filter_cfg * doc * (list string * list (string * string) * list string)) : bool :=
+  let '(cfg, d, (paths, ops, comps)) := c in
+  match prepare cfg d with
+  | Some d' =>
+      list_eqb String.eqb (map p_path (d_paths d')) paths
+      && list_eqb pair_eqb (op_keys (d_paths d')) ops
+      && list_eqb String.eqb (comp_keys d') comps
+  | None => false
+  end.
+
+Definition mismatches_prepare := mismatches ok_prepare.
+
+(** C19: chunking of the embedded text: observed = (line lengths, total length). *)
+Definition ok_chunk (c : nat * list nat) : bool :=
+  let '(total, lens) := c in
+  match chunk 80 (repeat tt total) with
+  | Some cs => list_eqb Nat.eqb (map (@List.length unit) cs) lens
+  | None => false
+  end.
+
+Definition mismatches_chunk := mismatches ok_chunk.
